@@ -518,7 +518,7 @@ type normaliser struct {
 	removed     map[ast.Decl]bool               // fully expanded helpers
 	stdFiles    map[string]bool                 // files in which library loop helpers are expanded
 	stdExpanded map[*ast.File]bool
-	methodised []*types.Func
+	methodised  []*types.Func
 	counter     int
 }
 
